@@ -379,6 +379,8 @@ def run(ctx):
     check_top_word_nonzero(ctx, F, helper, ANS + '::from_compressed', 'into_compressed')
     import props.C18 as c18
     c18.check_valid_bits(ctx, F)          # "the number of payload bits reported is exact"
+    import props.C17 as c17
+    c17.check_true_answer_unused(ctx, F)  # an import loop that stops on maybe_exhausted() == true truncates the data on default backends
     ctx.assume('bit_array_to_chunks_truncated(x) yields the non-zero-led chunks of x, most significant first (its arithmetic is not decided)')
     return {
         'level': 'other',
